@@ -310,6 +310,17 @@ CORPUS = [
     ({"k": "dict", "key": {"k": "string"}, "value": {"k": "dict", "key": {"k": "string"}, "value": {"k": "secure", "method": "xor"}}}, {"a": {"x": "s1"}}),
     ({"k": "dict", "key": {"k": "string"}, "value": {"k": "dict", "key": {"k": "string"}, "value": {"k": "challenge", "alg": "sha256"}}}, {"a": {"x": "pw"}}),
     ({"k": "list", "item": {"k": "dict", "key": {"k": "string"}, "value": {"k": "list", "item": {"k": "secure", "method": "aes"}}}}, [{"a": ["s1", "s2"]}]),
+    # host names longer than a NetBIOS name with letters that only FOLD into ASCII under Unicode case-insensitive matching (K, ſ, ı, İ)
+    ({"k": "hostname"}, "\u212aubernetes.cluster.local"), ({"k": "hostname"}, "node-\u017ftorage-01.example.com"), ({"k": "hostname"}, "ma\u0131l-relay-primary.example.org"),
+    ({"k": "hostname"}, "\u0130stanbul-gateway.example.net"), ({"k": "hostname", "allow_ipv4": False}, "k8s-ma\u017fter-01.example.com"),
+    ({"k": "list", "item": {"k": "hostname"}}, ["plain-host-name-01.example.com", "\u212a8s-master-01.example.com"]), ({"k": "hostname"}, "KUBERNETES.CLUSTER.LOCAL"),
+    # URLs that a re-assembling parser would change: empty authority before a path that starts with slashes, brackets in the path
+    ({"k": "url"}, "file:////[backup]/2026/app.ini"), ({"k": "url"}, "x:////"), ({"k": "url"}, "file:////server/share/app.ini"), ({"k": "url"}, "x://///"),
+    ({"k": "url"}, "http://EXAMPLE.com/a/../b/./c?"), ({"k": "url"}, "http://example.com/#"), ({"k": "url"}, "HTTP://example.com:80/"), ({"k": "url"}, "http://example.com/a%20b%2Fc"),
+    ({"k": "url"}, "https://mirror.example.org/pub/My%20Files/caf\u00e9 au lait"), ({"k": "list", "item": {"k": "url"}}, ["x:////", "http://a/b"]),
+    # whole numbers far above 2**53, non-finite spellings, fractions given as text
+    ({"k": "int"}, "9007199254740993"), ({"k": "int", "min": -2 ** 53, "max": 2 ** 53}, "9007199254740993"), ({"k": "int"}, "18446744073709551615"), ({"k": "int"}, "inf"),
+    ({"k": "int"}, "-Infinity"), ({"k": "int"}, "1e999"), ({"k": "int"}, "12.5"), ({"k": "port"}, "80.0"), ({"k": "int"}, "nan"),
     # validators of the application's own whose result is falsy
     ({"k": "int", "custom": "clamp0"}, -5), ({"k": "int", "custom": "clamp0", "min": 0}, 0), ({"k": "string", "custom": "blank"}, "#comment"),
     ({"k": "string", "custom": "blank", "strip": True}, "  #c  "),
